@@ -10,6 +10,23 @@ PKG = "smpl_extract"
 REPO = os.environ.get("VERIF_REPO", "/repo")
 
 
+def clone(node):
+    """copy of an AST (or list of ASTs) without the analysis back-links (_parent, _module): copy.deepcopy would follow them and
+    duplicate the whole module"""
+    if isinstance(node, list):
+        return [clone(x) for x in node]
+    if not isinstance(node, ast.AST):
+        return node
+    new = type(node).__new__(type(node))
+    for f in node._fields:
+        if hasattr(node, f):
+            setattr(new, f, clone(getattr(node, f)))
+    for a in ("lineno", "col_offset", "end_lineno", "end_col_offset", "_orig_lineno"):
+        if hasattr(node, a):
+            setattr(new, a, getattr(node, a))
+    return new
+
+
 class AnalysisError(Exception):
     """The analysis itself cannot proceed (exit 2): parse failure, missing
     anchor, unmodelled statement kind, internal inconsistency."""
